@@ -231,9 +231,9 @@ HeaderOf(x) ==
       [] OTHER               -> InsiderBuild(in, x.mut, x.layout, CtxOf(x.off))
 BodyFor(x) == IF x.regime = "tamper" /\ x.mut = "body:other" THEN "body2" ELSE CtxOf(x.off).body
 
-\* constant tables: TLC evaluates them once
-FailsTable   == [x \in CaseSpace |-> Fails(HeaderOf(x), x.layout, CtxOf(x.off))]
-VbFailsTable == [x \in CaseSpace |-> VbFails(HeaderOf(x), BodyFor(x), CtxOf(x.off))]
+\* constant tables: TLC evaluates them once (TLCEval: eagerly, a function or set expression is lazy otherwise)
+FailsTable   == TLCEval([x \in CaseSpace |-> Fails(HeaderOf(x), x.layout, CtxOf(x.off))])
+VbFailsTable == TLCEval([x \in CaseSpace |-> VbFails(HeaderOf(x), BodyFor(x), CtxOf(x.off))])
 ExpFails(x)   == FailsTable[x]
 ExpVbFails(x) == VbFailsTable[x]
 Valid(x)   == ExpFails(x) = {}
@@ -241,14 +241,15 @@ VbOk(x)    == ExpVbFails(x) = {}
 
 ------------------------------------------------------------------------
 (* histories on one validator instance *)
-HeaderTable == [x \in CaseSpace |-> HeaderOf(x)]
+HeaderTable == TLCEval([x \in CaseSpace |-> HeaderOf(x)])
 \* two cases that one validator may be shown one after the other
 Related(x, y) == /\ x.layout = y.layout                  \* the layout is the validator's configuration
                  /\ Valid(x) \/ Valid(y)
                  /\ MixedOffs \/ x.off = y.off \/ x.regime = "none" \/ y.regime = "none"
-Hist2 == {p \in CaseSpace \X CaseSpace : Related(p[1], p[2])}
+ValidCases == TLCEval({x \in CaseSpace : Valid(x)})
+Hist2 == TLCEval({p \in (ValidCases \X CaseSpace) \cup (CaseSpace \X ValidCases) : Related(p[1], p[2])})
 Hist3 == IF MaxHist >= 3 THEN {<<p[1], p[2], p[1]>> : p \in Hist2} ELSE {}
-HistSpace == Hist2 \cup Hist3
+HistSpace == TLCEval(Hist2 \cup Hist3)
 
 \* the state: the cases one validator instance has been shown, in order
 VARIABLE hist
@@ -357,10 +358,9 @@ Row(x) == [layout |-> x.layout, off |-> OffName(x.off), regime |-> x.regime, mut
                     - Inputs(x.off).kesT,
            field |-> IF x.regime = "tamper" THEN FieldOf[x.mut] ELSE "-"]
 
-StepRow(hs, i) == [case |-> Row(hs[i]), valid |-> StepFails(hs, i) = {}, fails |-> StepFails(hs, i),
-                   vbok |-> StepVbFails(hs, i) = {},
-                   vbfirst |-> IF StepVbFails(hs, i) = {} THEN 0 ELSE MinOf(StepVbFails(hs, i))]
-HistRow(hs) == [layout |-> hs[1].layout, steps |-> [i \in 1..Len(hs) |-> StepRow(hs, i)],
+RowTable == TLCEval([x \in CaseSpace |-> Row(x)])
+\* a step of a history carries the verdict of its case (HistoryIrrelevant is checked on every history)
+HistRow(hs) == [layout |-> hs[1].layout, steps |-> [i \in 1..Len(hs) |-> RowTable[hs[i]]],
                 \* some later step replays the certificate tuple of an earlier one under another cold signature
                 certreplay |-> \E i, j \in 1..Len(hs) : i < j /\ CertReplay(hs[i], hs[j])]
 
@@ -370,5 +370,5 @@ ASSUME CertReplayObservable
 ASSUME ndJsonSerialize("histories.ndjson", SetToSeq({HistRow(hs) : hs \in HistSpace}))
 ASSUME Isolated
 ASSUME WindowEdge
-ASSUME ndJsonSerialize("cases.ndjson", SetToSeq({Row(x) : x \in CaseSpace}))
+ASSUME ndJsonSerialize("cases.ndjson", SetToSeq({RowTable[x] : x \in CaseSpace}))
 =======================================================================
